@@ -462,8 +462,8 @@ func init() {
 			var cs []Case
 			for i := 0; i < tierN(tier, 150, 2500); i++ {
 				cfg := WCfg{Pkg: "flate", Level: accelLevels[r.Intn(4)], Win4K: r.Bool()}
-				fam := r.Pick2("random", "nearuniform", "fib", "alpha", "text", "mixed", "run", "one", "empty")
-				n := r.Pick([]int{0, 1, 100, 1000, 8192, 65536, 65537, 70000, 200000})
+				fam := r.Pick2("random", "nearuniform", "fib", "alpha", "text", "mixed", "run", "one", "empty", "dominant", "dominant", "gaps")
+				n := r.Pick([]int{0, 1, 100, 1000, 8192, 65536, 65537, 70000, 131072, 200000})
 				if tier == "thorough" && r.Intn(8) == 0 {
 					n = 1<<20 + r.Intn(1<<20)
 				}
